@@ -20,9 +20,10 @@ CONFIG = {
                "files, 15 % mutated semantic cases (a quarter of them random import statements of 1-4 elements out of v1 v2 v10 foo bar thing service …, plain / aliased / file path, used or not), 15 % valid generated packages with rules (half of them bundles of up to 3 packages with imports "
                "and same-named types in two packages), ~15 % byte-level `cut` inputs (templates with string literals / a regex / descriptions / comments, hand-written semantic cases "
                "and generated files: backslash material - \\n \\\\ \\\" \\t \\uXXXX \\U… \\xNN octal, lone backslash, complete and cut short - dropped into string literals, and / or END OF INPUT "
-               "inside or up to 4 bytes after the escape, inside a string, inside / after a comment, description or regex opener, at any offset), preceded by ~270 deterministic `cut-det-*` "
+               "inside or up to 4 bytes after the escape, inside a string, inside / after a comment, description or regex opener, at any offset), preceded by ~410 deterministic `cut-det-*` "
                "cases (every non-empty prefix of each of 29 escape sequences at the very end of the file inside an open string; the complete sequence in a closed string, before EOL, before a quote; "
-               "every third prefix of a file with comments, descriptions and a regex), ~8 % abstract bundles that must be REJECTED (op `total.neg`: wrong package declaration, enum "
+               "every third prefix of a file with comments, descriptions and a regex; 33 number-like tokens - signs, fractions, exponents, hex / binary / octal / underscore forms, suffixes, 32-digit runs, "
+               "non-ASCII digits, NaN / Inf - as the value of rules.minimum, complete and with end of input after each prefix; the random `cut` kind also swaps attribute numbers for such tokens), ~8 % abstract bundles that must be REJECTED (op `total.neg`: wrong package declaration, enum "
                "default filter naming no option, non-list-shaped list method; the model answers from the abstract bundle). Each input goes through CompilePackage, "
                "LintFile and LintAll under recover + 30 s timeout (fatal errors are attributed by the engine through per-op flushing). "
                "Result = outcome class (ok | err | err:nopos | err:virtual | err:outside | panic); every positioned error is checked "
